@@ -3,12 +3,16 @@ CANON = True
 
 import ast
 
-from .. import compq, pyq
+from .. import pm, compq, pyq
 from ..pysrc import dotted, norm, flat
 from .c35 import check as _c35  # noqa: F401
 
 R, MC = compq.RM, compq.MC
 IM = "hy/importer.py"
+
+
+def _same_modulo_locals(piece, text):
+    return False
 
 
 def check(ctx, src):
@@ -27,21 +31,30 @@ def check(ctx, src):
     asv = next((k.value.id for k in ct.keywords if k.arg == "assignments" and isinstance(k.value, ast.Name)), None)
     pfv = next((k.value.id for k in ct.keywords if k.arg == "prefix" and isinstance(k.value, ast.Name)), None)
     ctx.check(mnv is not None and asv is not None and pfv is not None, "REQ-MIRROR", f"{R}|compile_require|compile-time call", f"compile-time require is called with {norm(ct)[:100]}", R, ct.lineno, detail="module_name, assignments, prefix")
-    t = flat(arm.body[0])
-    pieces = ["dotted('hy.macros.require'), String(module_name), Symbol('None'), Keyword('target_module_name'), String(compiler.module.__name__)",
-              "Keyword('assignments'), String('EXPORTS') if assignments == 'EXPORTS' else List([List([String(k), String(v)]) for k, v in assignments])",
-              "Keyword('prefix'), String(prefix)"]
-    for p in pieces:
-        ctx.check(p in t, "REQ-MIRROR", f"{R}|compile_require|run-time call has `{p[:40]}`", f"the emitted run-time require no longer contains `{p}`: loading from bytecode brings in a different set of macros than compiling", R, arm.lineno,
-                  witness="(require m [a :as b]) works when compiled and is missing b when the module is loaded from its .pyc", detail="present")
-    ctx.check(isinstance(arm.body[0], ast.AugAssign) and norm(arm.body[0].target) == "ret" and len(arm.body) == 2 and norm(arm.body[1]) == "ret += ret.expr_as_stmt()", "REQ-MIRROR", f"{R}|compile_require|emitted iff required",
+    # the emitted run-time call: Expression([... dotted('hy.macros.require') ...]) in the body of that arm; its pieces must be
+    # built from the very variables the compile-time call was given (roles: module name, assignments, prefix)
+    emitted = pyq.contains(arm.body, lambda n: isinstance(n, ast.Call) and dotted(n.func) == "Expression" and "hy.macros.require" in flat(n) and "require-reader" not in flat(n))
+    t = flat(emitted) if emitted is not None else ""
+    pieces = [f"dotted('hy.macros.require'), String({mnv}), Symbol('None'), Keyword('target_module_name'), String(compiler.module.__name__)",
+              f"Keyword('assignments'), String('EXPORTS') if {asv} == 'EXPORTS' else List([List([String(k), String(v)]) for k, v in {asv}])",
+              f"Keyword('prefix'), String({pfv})"]
+    for p, what in zip(pieces, ("module name", "assignments", "prefix")):
+        ok = None if emitted is None else (p in str(t) or (what == "assignments" and pm.find(emitted, f"String('EXPORTS') if {asv} == 'EXPORTS' else List([List([String(k), String(v)]) for k, v in {asv}])") is not None))
+        ctx.decide("REQ-MIRROR", f"{R}|compile_require|run-time call carries the {what}", ok, f"the emitted run-time require no longer contains `{p}`: loading from bytecode brings in a different set of macros than compiling", R, arm.lineno,
+                   witness="(require m [a :as b]) works when compiled and is missing b when the module is loaded from its .pyc", detail="present")
+    stm = pyq.contains(arm.body, lambda n: isinstance(n, ast.Call) and isinstance(n.func, ast.Attribute) and n.func.attr == "expr_as_stmt")
+    ctx.check(emitted is not None and stm is not None, "REQ-MIRROR", f"{R}|compile_require|emitted iff required",
               "the run-time call must be emitted (as a statement) exactly in the arm guarded by the compile-time require", R, arm.lineno, detail="inside the arm")
-    rr = pyq.contains(rq, lambda n: isinstance(n, ast.If) and norm(n.test) == "require_reader(module_name, compiler.module, reader_assignments)")
-    t = flat(rr) if rr is not None else ""
-    ctx.check(rr is not None and "dotted('hy.macros.require-reader'), String(module_name), 'None', [reader_assignments]" in t and "dotted('hy.macros.enable-readers'), 'None', mkexpr(dotted('hy.reader.HyReader.current-reader')), [reader_assignments]" in t, "REQ-MIRROR",
+    rr = pyq.contains(rq, lambda n: isinstance(n, ast.If) and pyq.contains(n.test, lambda c: isinstance(c, ast.Call) and dotted(c.func) == "require_reader") is not None)
+    rc = pyq.contains(rr.test, lambda c: isinstance(c, ast.Call) and dotted(c.func) == "require_reader") if rr is not None else None
+    t = str(flat(rr)) if rr is not None else ""
+    rav = rc.args[2].id if rc is not None and len(rc.args) >= 3 and isinstance(rc.args[2], ast.Name) else None
+    okr = rr is not None and rc is not None and norm(rc.args[0]) == mnv and f"dotted('hy.macros.require-reader'), String({mnv}), 'None', [{rav}]" in t \
+        and f"dotted('hy.macros.enable-readers'), 'None', mkexpr(dotted('hy.reader.HyReader.current-reader')), [{rav}]" in t
+    ctx.check(okr, "REQ-MIRROR",
               f"{R}|compile_require|readers", "the run-time require-reader / compile-time enable-readers pair must use the same module name and reader names as the compile-time require_reader", R, rq.lineno, detail="same module_name and reader_assignments")
-    mn = pyq.contains(rq, lambda n: isinstance(n, ast.Assign) and norm(n) == "module_name = module_name_str(module)")
-    pf = pyq.contains(rq, lambda n: isinstance(n, ast.Assign) and norm(n) in ("(prefix, assignments) = assignment_shape(module, rest)", "prefix, assignments = assignment_shape(module, rest)"))
+    mn = pm.find(rq, "module_name = module_name_str(module)")
+    pf = pm.find(rq, "prefix, assignments = assignment_shape(module, rest)")
     ctx.check(mn is not None and pf is not None, "REQ-MIRROR", f"{R}|compile_require|single definitions", "module_name, prefix and assignments must each have one definition feeding both calls", R, rq.lineno, detail="one definition each")
     # --- run-time behaviour of require
     rf = comp.mc.func("require")
